@@ -36,6 +36,13 @@ class Faults(srv.SrvHarness):
         # sequential: failure in stage A (short-circuited through B) or in stage B
         for fail, pre in (({'A': [1]}, {}), ({'B': [1]}, {}), ({}, {'B': [2]}), ({'A': [0], 'B': [2]}, {})):
             out.append(dict(topo='seq', capacity=3, fail=fail, prefail=pre, gated=['B'], calls=three, oracles=O, bound=d, cap=cap))
+        # failure in stage A, stage B (also a thread servlet) defines preprocess: the upstream error must pass untouched
+        out.append(dict(topo='seq', capacity=3, fail={'A': [1]}, prefail={'B': [2]}, calls=three, oracles=O, bound=d, cap=cap))
+        out.append(dict(topo='seq', capacity=3, fail={'A': [0, 2]}, prefail={'B': [9]}, gated=['B'], calls=three, oracles=O, bound=d, cap=cap))
+        # ensemble whose FAILING member is the slow one (its error is the last member result to arrive)
+        for ff in (True, False):
+            out.append(dict(topo='ens', capacity=3, fail_fast=ff, fail={'B': [1]}, gated=['B'], env_wait=True, env_wait_t=0.012,
+                            calls=three, oracles=O, bound=d, cap=cap))
         # ensemble: which members fail, fail_fast or not
         for ff in (True, False):
             for fail in ({'A': [1]}, {'B': [1]}, {'A': [1], 'B': [1]}, {'A': [0], 'B': [2]}):
@@ -52,7 +59,29 @@ class Faults(srv.SrvHarness):
         return out
 
 
-HARNESSES = {'faults': Faults}
-PLAN = {'quick': ['faults'], 'thorough': ['faults']}
-ASSUMPTIONS = ['thread servlets only in this harness; the process hop (traceback as text) is covered by C15 and by the '
-               'simulated-process harnesses']
+from . import c11  # noqa: E402  (process servlets behind the simulated process boundary)
+
+
+class PFaults(c11.PHarness):
+    """failures inside worker PROCESSES (simulated process boundary): the exception crosses a pickling pipe, so the traceback of
+    the failure site must arrive as text"""
+    name = 'pfaults'
+
+    def configs(self, tier):
+        quick = tier == 'quick'
+        d = 0 if quick else 1
+        cap = 60000 if quick else 600000
+        three = [[[0, BIG, False]], [[1, BIG, False]], [[2, BIG, False]]]
+        return [
+            dict(ptopo='P', topo='single', nworkers=2, capacity=3, fail={'A': [1]}, calls=three, oracles=O, bound=1, cap=cap),
+            dict(ptopo='PT', topo='seq', capacity=3, fail={'A': [1]}, calls=three, oracles=O, bound=d, cap=cap),
+            dict(ptopo='TP', topo='seq', capacity=3, fail={'B': [0, 2]}, calls=three, oracles=O, bound=d, cap=cap),
+            dict(ptopo='PP', topo='seq', capacity=3, fail={'A': [0], 'B': [2]}, calls=three, oracles=O, bound=d, cap=cap),
+            dict(ptopo='ensTP', topo='ens', capacity=3, fail_fast=False, fail={'B': [1]}, calls=three, oracles=O, bound=d, cap=cap),
+            dict(ptopo='ensTP', topo='ens', capacity=3, fail_fast=True, fail={'B': [1]}, calls=three, oracles=O, bound=d, cap=cap),
+        ]
+
+
+HARNESSES = {'faults': Faults, 'pfaults': PFaults}
+PLAN = {'quick': ['faults', 'pfaults'], 'thorough': ['faults', 'pfaults']}
+ASSUMPTIONS = ['process servlets run behind the simulated process boundary (pickling pipes); real process pools are not explored']
